@@ -104,8 +104,8 @@ pub fn expect_iso<O: Lbl, A: Lbl>(
             true
         }
         Iso::Budget => {
+            // counted; the driver turns more than 0.1% + 2 unjudged searches into an inconclusive verdict
             ctx.count("iso:budget_exhausted");
-            ctx.inconclusive("isomorphism search ran out of budget");
             false
         }
         Iso::No(why) => {
